@@ -27,11 +27,23 @@ BOUNDS = {'quick': {'circuits': 2, 'streams': 2, 'events': '4 from the empty sta
 OUTSIDE = ['more than 2 circuits / 2 streams', 'exceptions raised by user listeners', 'NEWRESOLVE / SENTRESOLVE streams']
 
 
-def new_state():
+def new_state(wire=False):
+    """wire=True: the state subscribes through its real _add_events() (SETEVENTS acknowledged by the harness) and
+    events are then delivered as 650 lines through the real protocol"""
     with api.no_tracing():
         p, t = fakes.new_protocol()
         st = TorState(p, bootstrap=False)
         st._update_network_status(CONSENSUS)
+        if wire:
+            p._set_valid_events('STREAM CIRC NEWCONSENSUS ADDRMAP HS_DESC')
+            st._add_events()
+            for _ in range(8):
+                lines = b''.join(t.chunks).split(b'\r\n')[:-1]
+                if len(lines) <= getattr(p, '_harness_acked', 0):
+                    break
+                p._harness_acked = getattr(p, '_harness_acked', 0) + 1
+                p.lineReceived(b'250 OK')
+            st._wire = p
     return st, p, t
 
 
@@ -107,15 +119,19 @@ def compare(state, model, tracker, step):
 
 
 def deliver(state, kind, payload):
+    w = getattr(state, '_wire', None)
+    if w is not None:
+        w.lineReceived(('650 %s %s' % (kind, payload)).encode('ascii'))
+        return
     if kind == 'CIRC':
         state._circuit_update(payload)
     else:
         state._stream_update(payload)
 
 
-def run_history(prefix, events):
+def run_history(prefix, events, wire=False):
     """prefix: concrete event numbers that build the snapshot inside the model; events: symbolic"""
-    state, p, t = new_state()
+    state, p, t = new_state(wire)
     model = TorModel()
     tracker = Tracker()
     try:
@@ -190,9 +206,10 @@ def c07_empty5(e1: int, e2: int, e3: int, e4: int, e5: int) -> str:
 
 
 @cond(quick=dict(parts=[{'snap': i} for i in range(1, len(SNAPSHOTS))], budget=100))
-def c07_snapshot2(snap: int, e1: int, e2: int) -> str:
-    """2 events after a snapshot installed through _circuit_status/_stream_status"""
-    return run_history(SNAPSHOTS[snap], [e1, e2])
+def c07_snapshot2(snap: int, e1: int, e2: int, wire: bool) -> str:
+    """2 events after a snapshot installed through _circuit_status/_stream_status; wire: events arrive as 650 lines through
+    the real protocol and the subscriptions made by the real _add_events()"""
+    return run_history(SNAPSHOTS[snap], [e1, e2], True if wire else False)
 
 
 @cond(thorough=dict(parts=[{'snap': i, 'e1': a} for i in range(1, len(SNAPSHOTS)) for a in range(_E)], budget=300))
